@@ -33,6 +33,11 @@ Definition rel_close (tol a b : float) : bool :=
   if orb (f_isnan a) (f_isnan b) then false else
   (abs (a - b) <=? tol * (if abs a <? abs b then abs b else abs a)).
 
+(* the model's value is exactly 0 (every term of the definition is exactly 0, e.g. mobile atoms sitting
+   exactly on the fixed ones): a sum of squares may come out as a tiny positive residue in another
+   evaluation order, never as a negative number: 0 <= x <= 2^-60 *)
+Definition zero_ok (x : float) : bool := (0 <=? x) && (x <=? 0x1p-60).
+
 (* exact = true: dyadic inputs, all sums exact in binary64: exact ties are compared (no margin
    test); the value must be bit-identical when no 1.1^k factor is applied and within 2^-43
    relative otherwise (pow(1.1,k) vs a k-fold product).
@@ -54,6 +59,7 @@ Definition chk_chi2 (exact : bool) (fixed mobile0 : list (V3 float)) (restr : li
     | Ok (v, k), ObsVal x =>
         if exact then
           (if Z.eqb k 0 then code (v =? x) else code (rel_close 0x1p-43 v x))
+        else if v =? 0 then code (zero_ok x)
         else if forallb row_margin_ok rows then code (rel_close 0x1p-40 v x)
         else INDET
     | _, _ => ERRMISMATCH
